@@ -33,9 +33,9 @@ Catalogue == <<
   DD("tap", "trkey", Pk(20))
 >>
 
-Configs == IF Tier = "quick" THEN {<<1, 2>>, <<3, 4>>, <<5, 6>>, <<8, 2>>, <<9, 10>>, <<11, 12>>}
+Configs == IF Tier = "quick" THEN {<<1, 2>>, <<3, 4>>, <<5, 6>>, <<8, 2>>, <<9, 10>>, <<11, 12>>, <<4, 3>>, <<10, 9>>}
            ELSE {<<1, 2>>, <<3, 4>>, <<5, 6>>, <<7, 1>>, <<2, 3>>, <<4, 5>>, <<1, 1>>, <<8, 2>>, <<2, 8>>,
-                 <<9, 10>>, <<11, 12>>, <<10, 1>>, <<12, 9>>, <<2, 12>>}
+                 <<9, 10>>, <<11, 12>>, <<10, 1>>, <<12, 9>>, <<2, 12>>, <<4, 3>>, <<10, 9>>, <<3, 9>>}
 
 TxEnvJ == [lock |-> 150, ver |-> 2, seq |-> [final |-> FALSE, dis |-> FALSE, time |-> FALSE, v |-> 15], rules |-> "legacy", std |-> TRUE]
 
